@@ -143,6 +143,13 @@ pub fn generate(rng: &mut Rng, thorough: bool, out: &mut Out) {
         let (q, r) = run_revolve(prof, deg, 8, true);
         out.case(q, r);
     }
+    // a full turn at every segment count (the ring angle 360/n is inexact for most n: a "is this the last
+    // ring" decision taken from accumulated angles goes wrong for a few of them)
+    for n in 3..=(if thorough { 720u64 } else { 200u64 }) {
+        let prof = vec![Pt2::new(2.0, 1.0), Pt2::new(3.0, 1.0), Pt2::new(3.0, 0.0), Pt2::new(2.0, 0.0)];
+        let (q, r) = run_revolve(prof, 360.0, n, true);
+        out.case(q, r);
+    }
     for d in [Pt3::new(1.0, 0.0, 0.0), Pt3::new(0.0, -1.0, 0.0), Pt3::new(0.0, 0.0, 1.0), Pt3::new(1.0, 1.0, 1.0), Pt3::new(0.0, 0.0, -1.0)] {
         let prof = shrink(&l_shape(), 0.5);
         let path: Vec<Pt3> = (0..4).map(|i| d * (i as f64)).collect();
